@@ -56,10 +56,7 @@ def Chunk.enc (c : Chunk) : Bytes := c.id ++ (le 4 c.szField ++ (c.body ++ c.pad
 def encAll (cs : List Chunk) : Bytes := (cs.map Chunk.enc).flatten
 
 /-- the size `_read_chunk_header` reports for the chunk (ds64 substitution for RF64/BW64 files) -/
-def effSize (ds : Option Ds64) (c : Chunk) : Nat :=
-  match ds with
-  | none => c.szField
-  | some d => if c.id = idData then d.dataSize else (d.lookup c.id).getD c.szField
+def effSize (ds : Option Ds64) (c : Chunk) : Nat := hdrSize ds c.id c.szField
 
 /-- well-formed chunk: four-character id accepted by `CHUNK_ID_RE`, size field fits 32 bits and (after
 ds64 substitution) equals the body length, one pad byte exactly after an odd-sized body -/
@@ -114,9 +111,7 @@ theorem walk_chunks (ds : Option Ds64) (cs : List Chunk) (hok : ∀ c ∈ cs, c.
       have hsz := hc.size
       simp only [readChunkHeader, hd, h4, h5, hc.idValid, fromLE_le4 _ hc.szLt]
       simp [le_length, hc.idLen]
-      cases ds with
-      | none => simpa [effSize] using hsz
-      | some d => simpa [effSize] using hsz
+      exact hsz
     rw [readChunks, hh]
     have hlen := c.enc_length hc.idLen hc.padLen
     have hfl : f.length = pre.length + c.enc.length + (encAll cs).length := by
@@ -153,9 +148,7 @@ theorem walk_chunks_then (ds : Option Ds64) (cs : List Chunk) (hok : ∀ c ∈ c
       have hsz := hc.size
       simp only [readChunkHeader, hd, h4, h5, hc.idValid, fromLE_le4 _ hc.szLt]
       simp [le_length, hc.idLen]
-      cases ds with
-      | none => simpa [effSize] using hsz
-      | some d => simpa [effSize] using hsz
+      exact hsz
     have hfu : (c :: cs).length + fuel = (cs.length + fuel) + 1 := by simp; omega
     rw [hfu, readChunks, hh]
     have hlen := c.enc_length hc.idLen hc.padLen
